@@ -422,6 +422,25 @@ def rule_D(run, prog):
                        loc=fn.loc(bad[0]) if bad else fn.loc(), sample={"typed_reads": total})
     if any(x.rule == rid and x.key == "internal-units-reads" for x in run.findings):
         return      # the symbolic round trip below assumes internal units throughout
+    # the algebra below takes self.min of an axis to be its first point (t0).  Where the conjugation reads self.min, the
+    # property has to be that on every path: a `min` that answers with the last point for a descending axis records the
+    # wrong origin (time_start) and the axis comes back shifted by (length-1)*step
+    for fn_, clsq in ((tf, "quantarhei.core.time.TimeAxis"), (ft, "quantarhei.core.frequency.FrequencyAxis")):
+        reads = [x for x in ast.walk(fn_.node) if isinstance(x, ast.Attribute) and x.attr == "min" and norm(x.value) == "self"]
+        if not reads:
+            continue
+        pf = prog.find_method(prog.cls(clsq), "min")
+        if pf is None:
+            raise AnalysisError("%s reads self.min, which no class of the axis defines" % fn_.short)
+        prog.consulted.add(pf.relpath)
+        rets = [x for x in walk_no_nested(pf.node) if isinstance(x, ast.Return)]
+        bad = [x for x in rets if x.value is None or norm(x.value) not in ("self.start", "self.data[0]")]
+        run.obligation(rid, pf.short, bool(rets) and not bad, key="min-is-first-point",
+                       message="%s takes the origin of the axis from self.min, and %s returns `%s` on one of its paths: the origin "
+                               "recorded for the inverse conjugation is then not the first point of the axis (a descending "
+                               "upper-half axis comes back shifted by (length-1)*step)"
+                               % (fn_.short, pf.short, norm(bad[0].value)[:40] if bad and bad[0].value is not None else ""),
+                       loc=pf.loc(bad[0]) if bad else pf.loc(pf.node))
     pi2 = Expr.const(2) * S("pi")
     for atype in ("complete", "upper-half"):
         # ---- time -> frequency -> time
